@@ -283,3 +283,90 @@ fn rejected_reorg_leaves_no_trace() {
         }
     }
 }
+
+/// C14: after a block has been applied, every pooled transaction is still valid against the ledger, the block's own
+/// transactions have left the pool, still-valid transactions outside the block stay, and no reservation is left behind
+/// by a dropped transaction. Random pools / ledgers / blocks against the real Blockchain::remove_block_transactions.
+#[tokio::test]
+#[serial_test::serial]
+async fn pool_is_swept_after_a_block() {
+    use crate::core::consensus::slip::Slip;
+    use crate::core::util::crypto::generate_keys;
+    let t = TestManager::default();
+    let (pk, sk) = generate_keys();
+    let mut rng = Rng::from_env();
+    for run in 0..200 {
+        let mut blockchain = Blockchain::new(t.wallet_lock.clone(), 100, 0, 60);
+        let mut mempool = Mempool::new(t.wallet_lock.clone());
+        // eight outputs, each unspent / spent / absent from the ledger index
+        let mut slips: Vec<Slip> = vec![];
+        let mut state: Vec<u64> = vec![];
+        for ord in 0..8u64 {
+            let mut s = Slip::default(); s.public_key = pk; s.amount = 10; s.block_id = 1; s.tx_ordinal = ord; s.slip_index = 0;
+            s.generate_utxoset_key();
+            let st = rng.below(3);
+            if st < 2 { blockchain.utxoset.insert(s.utxoset_key, st == 0); }
+            slips.push(s); state.push(st);
+        }
+        // pooled transactions over disjoint inputs (the pool invariant), each spending one or two of the outputs
+        let mut free: Vec<usize> = (0..8).collect();
+        let mut pooled: Vec<(Transaction, Vec<usize>)> = vec![];
+        while free.len() >= 2 && pooled.len() < 4 {
+            let n_in = 1 + rng.below(2) as usize;
+            let mut ins = vec![];
+            for _ in 0..n_in { let k = rng.below(free.len() as u64) as usize; ins.push(free.remove(k)); }
+            let mut tx = Transaction::default();
+            if rng.below(4) == 0 {
+                // a transaction that moves no value (one zero-valued input): the ledger never invalidates it, so only
+                // its inclusion in a block takes it out of the pool
+                for i in ins.drain(..) { free.push(i); }
+                let mut z = Slip::default(); z.public_key = pk; z.amount = 0; z.tx_ordinal = 100 + pooled.len() as u64; z.generate_utxoset_key();
+                tx.from.push(z);
+            }
+            for i in ins.iter() { tx.from.push(slips[*i].clone()); }
+            let mut o = Slip::default(); o.public_key = pk; o.amount = 1; tx.to.push(o);
+            tx.data = vec![pooled.len() as u8];
+            tx.sign(&sk);
+            tx.generate(&pk, 0, 0);
+            mempool.add_transaction(tx.clone()).await;
+            if !mempool.transactions.contains_key(&tx.signature) { panic!("setup: disjoint transaction refused"); }
+            pooled.push((tx, ins));
+        }
+        // the block carries some of the pooled transactions (their inputs are spent by it: mark them spent in the index)
+        let mut block = Block::new();
+        block.hash = [7u8; 32];
+        let mut in_block: Vec<bool> = vec![];
+        for (tx, ins) in pooled.iter() {
+            let b = rng.below(3) == 0;
+            in_block.push(b);
+            if b { block.transactions.push(tx.clone()); for i in ins.iter() { blockchain.utxoset.insert(slips[*i].utxoset_key, false); state[*i] = 1; } }
+        }
+        // ... and, like every second block, a golden ticket somewhere among them
+        let gt_at = if rng.below(2) == 0 { Some(rng.below(block.transactions.len() as u64 + 1) as usize) } else { None };
+        if let Some(at) = gt_at {
+            let mut gt = Transaction::default();
+            gt.transaction_type = TransactionType::GoldenTicket;
+            gt.data = vec![run as u8; 97];
+            gt.sign(&sk);
+            block.transactions.insert(at, gt);
+        }
+        blockchain.blocks.insert(block.hash, block);
+        let desc = format!("run {}: golden ticket at {:?} of the block; ledger(0=unspent,1=spent,2=absent)={:?} pooled inputs={:?} in_block={:?}", run, gt_at, state, pooled.iter().map(|p| p.1.clone()).collect::<Vec<_>>(), in_block);
+
+        blockchain.remove_block_transactions(&[7u8; 32], &mut mempool);
+
+        for (k, (tx, ins)) in pooled.iter().enumerate() {
+            let valid = ins.iter().all(|i| state[*i] == 0);
+            let present = mempool.transactions.contains_key(&tx.signature);
+            if present && !valid { witness(format!("a pooled transaction whose input is spent or unknown to the ledger is still pooled after the block (tx #{}): {}", k, desc)); }
+            if present && in_block[k] { witness(format!("a transaction of the block is still pooled (tx #{}): {}", k, desc)); }
+            if !present && valid && !in_block[k] { witness(format!("a still-valid transaction outside the block was dropped from the pool (tx #{}): {}", k, desc)); }
+        }
+        if mempool.transactions.len() > pooled.len() { witness(format!("the sweep added transactions to the pool: {}", desc)); }
+        for (i, s) in slips.iter().enumerate() {
+            let spent_by_pool = mempool.transactions.values().any(|tx| tx.from.iter().any(|x| x.amount > 0 && x.utxoset_key == s.utxoset_key));
+            if mempool.utxo_map.contains_key(&s.utxoset_key) && !spent_by_pool { witness(format!("output #{} is still reserved although no pooled transaction spends it: {}", i, desc)); }
+            if !mempool.utxo_map.contains_key(&s.utxoset_key) && spent_by_pool { witness(format!("output #{} is spent by a pooled transaction but not reserved: {}", i, desc)); }
+        }
+    }
+}
